@@ -282,7 +282,7 @@ class CuckooFilter:
             raise ValueError(msg)
         # bytes to bits
         self._fingerprint_size = tmp * 8
-        self._calc_error_rate()  # if updating fingerprint size then error rate may change
+        self._error_rate = float(self._calc_error_rate())  # if updating fingerprint size then error rate may change
 
     def load_factor(self) -> float:
         """float: How full the Cuckoo Filter is currently"""
@@ -443,6 +443,8 @@ class CuckooFilter:
         if error_rate is not None:
             self._error_rate = error_rate
             self._fingerprint_size = self._calc_fingerprint_size()
+        else:  # the bucket size may just have been loaded: keep the reported rate in step with it
+            self._error_rate = float(self._calc_error_rate())
 
     def _check_if_present(self, idx_1, idx_2, fingerprint):
         """wrapper for checking if fingerprint is already inserted"""
